@@ -184,7 +184,7 @@ int main(int argc, char **argv) {
   Args a = parse_args(argc, argv);
   return supervise(a, [&](Ctx &c) {
     const bool th = c.args.thorough();
-    const int depth = VPROP == 9 ? (th ? 8 : 5) : VPROP == 15 ? (th ? 8 : 5) : (th ? 5 : 4);
+    const int depth = VPROP == 9 ? (th ? 8 : 5) : VPROP == 15 ? (th ? 7 : 5) : (th ? 5 : 4);
     std::string tag = fmt("%s/%s", TAG, order_name(S));
     BfsResult r = bfs(c, tag, [] { return std::unique_ptr<World>(new World()); }, depth, c.args.thorough() ? 4 : 3);
     note_bfs(c, tag, r, depth);
